@@ -21,7 +21,12 @@
  *                               block loadings, |t - T w|/|t| (1e-12), | |w|-1 | (1e-12), CPCAScorePredictor(training) vs t
  *   Truth{k,dist,tvErr}         super score vs +-oracle score (relative); total_expvar vs lambda_k/trace (relative)
  *   PcaRef{k,varexp,dist}       library PCA on C: its explained variance/100, distance of its score k to the super score
+ *   Scale{kexp,terr[],verr[],berr[]}   scaling 0 only: CPCA(2^kexp * X) against CPCA(X): normalised super scores (relative distance),
+ *                               total explained variances (relative), block explained variances (absolute, 1e-9) per component
  *   Abort{rc,why}  Dropped{why}
+ * Data magnitude: for scaling 0 (centring only - the one option of the quantifier that does not normalise the magnitude) the decade
+ * of the data runs over 1e-8..1e6 and the paired run rescales by an exact power of two between 2^-27 and 2^27; for scalings 1..5 the
+ * decade stays in 1..1e3 (smaller magnitudes fall under the library's zero-scale guard: C10/C18 territory).
  */
 #include "scientific.h"
 #include "verif_rt.h"
@@ -192,6 +197,30 @@ static int child(void *arg)
     for(int i = 0; i < n; i++) tref[i] = pm->scores->data[i][k];
     VRT_EMIT("{\"e\":\"PcaRef\",\"k\":%d,\"varexp\":%ld,\"dist\":%ld}", k + 1, vqs_unit(pm->varexp->data[k] / 100.0, 1e-9), vq9(dist_pm(tcol, tref, n)));
   }
+  if(scaling == 0){ /* magnitude equivariance: the statement of the property does not depend on the unit of the data */
+    int kexp = (int)vr_int(&rg, 4, 27) * (vr_int(&rg, 0, 1) ? 1 : -1);
+    if(jb->dec + 0.30103 * kexp < -9.5) kexp = -kexp;      /* keep the rescaled data within 1e-9..1e15 */
+    if(jb->dec + 0.30103 * kexp > 14.0) kexp = -kexp;
+    double cf = ldexp(1.0, kexp);
+    tensor *x2; NewTensor(&x2, (size_t)B);
+    for(int b = 0; b < B; b++){ NewTensorMatrix(x2, (size_t)b, (size_t)n, (size_t)jb->w[b]); for(int i = 0; i < n; i++) for(int j = 0; j < jb->w[b]; j++) x2->m[b]->data[i][j] = cf * x->m[b]->data[i][j]; }
+    CPCAMODEL *m2; NewCPCAModel(&m2);
+    CPCA(x2, scaling, (size_t)npc, m2);
+    p = 0; p += snprintf(buf + p, sizeof(buf) - p, "{\"e\":\"Scale\",\"kexp\":%d,\"terr\":[", kexp);
+    int okshape = ((int)m2->super_scores->col == npc && (int)m2->super_scores->row == n && (int)m2->total_expvar->size == npc && (int)m2->block_expvar->size == npc);
+    for(int k = 0; k < npc; k++){
+      double e = 2.0;
+      if(okshape){ ld na = 0, nb2 = 0; for(int i = 0; i < n; i++){ na += (ld)m->super_scores->data[i][k] * m->super_scores->data[i][k]; nb2 += (ld)m2->super_scores->data[i][k] * m2->super_scores->data[i][k]; }
+        if(na > 0 && nb2 > 0){ na = sqrtl(na); nb2 = sqrtl(nb2); ld dp = 0, dm = 0; for(int i = 0; i < n; i++){ ld a = m->super_scores->data[i][k] / na, b2 = m2->super_scores->data[i][k] / nb2; dp += (a - b2) * (a - b2); dm += (a + b2) * (a + b2); } e = sqrt((double)(dp < dm ? dp : dm)); } }
+      p += snprintf(buf + p, sizeof(buf) - p, "%s%ld", k ? "," : "", vq9(e));
+    }
+    p += snprintf(buf + p, sizeof(buf) - p, "],\"verr\":[");
+    for(int k = 0; k < npc; k++){ double a = m->total_expvar->data[k], e = (okshape && a > 0) ? fabs(m2->total_expvar->data[k] - a) / a : 2.0; p += snprintf(buf + p, sizeof(buf) - p, "%s%ld", k ? "," : "", vq9(e)); }
+    p += snprintf(buf + p, sizeof(buf) - p, "],\"berr\":[");
+    for(int k = 0; k < npc; k++){ double e = 0; for(int b = 0; b < B; b++){ double d = okshape ? fabs(m2->block_expvar->d[k]->data[b] - m->block_expvar->d[k]->data[b]) / 100.0 : 2.0; if(!(d <= e)) e = d; } p += snprintf(buf + p, sizeof(buf) - p, "%s%ld", k ? "," : "", vq9(e)); }
+    p += snprintf(buf + p, sizeof(buf) - p, "]}");
+    VRT_EMIT("%s", buf);
+  }
   return 0;
 }
 
@@ -229,9 +258,9 @@ int main(int argc, char **argv)
       jb.B = (int)vr_int(&r, 2, 4); int minw = 8;
       for(int b = 0; b < jb.B; b++){ jb.w[b] = (int)vr_int(&r, 1, 8); if(jb.w[b] < minw) minw = jb.w[b]; }
       jb.n = (int)vr_int(&r, 5, 30);
-      jb.scaling = (int)vr_int(&r, 0, 5);
+      jb.scaling = (int)vr_int(&r, 0, 6); if(jb.scaling == 6) jb.scaling = 0;
       jb.npc = (int)vr_int(&r, 1, minw); if(jb.npc > jb.n - 1) jb.npc = jb.n - 1;
-      jb.dec = jb.scaling == 0 ? (int)vr_int(&r, -2, 3) : (int)vr_int(&r, 0, 3);
+      jb.dec = jb.scaling == 0 ? (int)vr_int(&r, -8, 6) : (int)vr_int(&r, 0, 3);
       jb.mseed = (long)(vr_next(&r) & 0x3FFFFFFF);
       run_model(&jb);
     }
